@@ -1,7 +1,6 @@
 (* Lemmas about RelEdit.v (C11), part 2: the operations on the store. *)
 From V.model Require Import Base RelLex RelParse RelEdit RelEditSpec RelEditTree.
 From V.proofs Require Import BaseP RelEditP.
-Set Default Timeout 60.
 
 Lemma nth_error_set_nth_eq {A} i (x : A) l : i < length l -> nth_error (set_nth i x l) i = Some x.
 Proof.
